@@ -136,9 +136,34 @@ def load_known():
         if m: out.append({"property": m.group(1), "what": m.group(2), "match": json.loads(m.group(3))})
     return out
 
+def loop_rows(case_lines):
+    """[(pred, succ, offset(3), axes indices)] of the loop / loopauto lines of a case"""
+    out = []
+    for l in case_lines:
+        t = l.split()
+        if not t or t[0] not in ("loop", "loopauto"): continue
+        try:
+            if t[0] == "loopauto": off = [float(x) for x in t[15:18]]; k = int(t[18]); base = 19
+            else: off = [0.0] * 3; k = int(t[27]); base = 28
+            axes = []
+            for j in range(k):
+                v = [float(x) for x in t[base + 6 * j: base + 6 * j + 6]]
+                axes.append([i for i, x in enumerate(v) if x != 0.0])
+            out.append((t[1], t[2], off, axes))
+        except (ValueError, IndexError): out.append((t[1], t[2], None, None))
+    return out
+PREDS = {
+  # D8a: a loop constraint row with a rotational axis component (the library shifts it by the frame origin)
+  "loop_rot_axis": lambda cl: any(ax is None or any(i < 3 for a in ax for i in a) for (_, _, _, ax) in loop_rows(cl)),
+  # D8b: translational loop rows that do not lock all three translations (moving-axis terms missing)
+  "loop_partial_translation": lambda cl: any(ax is None or (0 < len({i for a in ax for i in a if i >= 3}) < 3) or
+                                           (any(i < 3 for a in ax for i in a) and len({i for a in ax for i in a if i >= 3}) < 3)
+                                           for (_, _, _, ax) in loop_rows(cl)),
+}
 def matches_known(kn, pid, label, case_lines):
     if kn["property"] != pid: return False
     mt = kn["match"]
+    if "pred" in mt and not PREDS[mt["pred"]](case_lines): return False
     if "labels" in mt and label.split("#")[0] not in mt["labels"]: return False
     text = "\n".join(case_lines)
     for s in mt.get("case_contains", []):
